@@ -801,8 +801,35 @@ class SysRun:
         return p.stdout.strip() if p.returncode == 0 else 'exit %d' % p.returncode
 
 
-def sys_classes(names):
-    return tuple(sorted({cls for nm in names for c, cls in RISKY.items() if c in nm}))
+def sys_classes(risky, nm, src, f):
+    """Finding classes of one failure f of a fixed scenario (header `nm`, whose name contains the character `risky`, included
+    by s0.c only; the history: build, touch the header, stop including it and delete it). A class applies only to the failure
+    its finding describes - the step, the kind of failure and Make's message naming the header (or the depfile of the one
+    object that includes it); any other failure of the same project is a violation of its own.
+      % = tab   after the header was deleted make stops: No rule to make target '<header>', needed by 'prog.int/s0.o'
+      :         the make right after the first build stops: prog.int/s0.o.d:N: *** multiple target patterns
+      ;         likewise: prog.int/s0.o.d:N: *** missing separator
+      |         likewise: No rule to make target '<piece of the header name next to the bar>', needed by 'prog.int/s0.o'"""
+    import re
+    cls = RISKY.get(risky)
+    if cls is None or nm is None or risky not in nm:
+        return ()
+    step, what, detail = f.get('step', ''), f.get('what', ''), f.get('detail', '') or ''
+    obj = 'prog.int/s0.o'
+    if risky in '%=\t':
+        ok = (step.startswith('edit 1 ') and what == 'make failed' and
+              "No rule to make target '%s', needed by '%s'" % (os.path.join(src, nm), obj) in detail)
+    else:
+        second = step == 'initial' and what == 'second make is not a no-op' and f.get('rc') == 2 and not f.get('compiled')
+        if risky == ':':
+            ok = second and re.search(r'^%s\.d:\d+: \*\*\* multiple target patterns' % re.escape(obj), detail, re.M) is not None
+        elif risky == ';':
+            ok = second and re.search(r'^%s\.d:\d+: \*\*\* missing separator' % re.escape(obj), detail, re.M) is not None
+        else:
+            pieces = [x for part in nm.split('|') for x in (part, part.split(' ')[0], part.split(' ')[-1]) if x and x != nm]
+            ok = second and any("No rule to make target '%s', needed by '%s'" % (os.path.join(src, x), obj) in detail
+                                for x in pieces)
+    return (cls,) if ok else ()
 
 
 def run_history(rep, seed, idx, cc, nedits, risky=None):
@@ -821,12 +848,12 @@ def run_history(rep, seed, idx, cc, nedits, risky=None):
             proj = Proj(rng, None, special=False, nsrc=2, nhdr=2)
             h = proj.add_header(force=risky)
             proj.src[min(proj.src)]['inc'].append(h)
-        allnames = set(h['name'] for h in proj.hdr.values())
+        risky_name = proj.hdr[h]['name'] if risky is not None else None
         run_.sync(proj)
         p = run_.configure()
         if p.returncode != 0:
             return [{'step': 'configure', 'what': 'configure failed', 'detail': (p.stdout + p.stderr)[-800:],
-                     'classes': sys_classes(allnames), 'trace': []}]
+                     'classes': (), 'trace': []}]
         listed = {}
 
         def check_build(step, dirty, expect_all=False):
@@ -884,7 +911,6 @@ def run_history(rep, seed, idx, cc, nedits, risky=None):
                     break
             trace.append(ed)
             rep.count('sys:edit:' + ed[0])
-            allnames |= set(h['name'] for h in proj.hdr.values())
             dirty = run_.sync(proj, extra_touch=[ed[1]] if ed[0] == 'touch_hdr' else ())
             if not check_build('edit %d %r' % (e, ed), dirty):
                 break
@@ -900,7 +926,7 @@ def run_history(rep, seed, idx, cc, nedits, risky=None):
             else:
                 check_build('rebuild after clean', set(), expect_all=True)
         for f in fails:
-            f['classes'] = sys_classes(allnames)
+            f['classes'] = sys_classes(risky, risky_name, run_.src, f)
             f['trace'] = trace
         return fails
     finally:
